@@ -61,7 +61,7 @@ func runHistory(worker string, ops []string, extraEnv ...string) (*histOut, erro
 		return nil, fmt.Errorf("history %v: %v", ops, err)
 	}
 	var h histOut
-	if err := json.Unmarshal(out, &h); err != nil {
+	if err := json.Unmarshal(extractResult(out), &h); err != nil {
 		return nil, fmt.Errorf("history %v: bad output: %v", ops, err)
 	}
 	if len(h.Steps) != len(ops) {
@@ -524,7 +524,7 @@ func replayHist(path string) int {
 			die("%v", err)
 		}
 		var vo vrandOut
-		if err := json.Unmarshal(out, &vo); err != nil {
+		if err := json.Unmarshal(extractResult(out), &vo); err != nil {
 			die("%v", err)
 		}
 		fmt.Printf("replaying C07 default-source sequence [%s] (crypto/rand replaced by a position-coded stream)\nrecorded: %s\n", rep.Case.Ops, rep.What)
@@ -681,7 +681,7 @@ func c07DefaultPath(tier string, r *Result) (nSeq, nCalls, redirected int) {
 					results[i].err = err
 					continue
 				}
-				results[i].err = json.Unmarshal(out, &results[i].out)
+				results[i].err = json.Unmarshal(extractResult(out), &results[i].out)
 			}
 		}()
 	}
